@@ -943,7 +943,7 @@ LOG_HASHSEED_INDEPENDENT = False
 TIERS = {
     "quick": {"runs": 2400, "gen": {"min_ops": 4, "max_ops": 22}, "soft_deadline_s": 150, "hard_timeout_s": 500,
               "n_echo": 12, "max_report": 6},
-    "thorough": {"runs": 60000, "gen": {"min_ops": 4, "max_ops": 30}, "soft_deadline_s": 1500, "hard_timeout_s": 2700,
+    "thorough": {"runs": 150000, "gen": {"min_ops": 4, "max_ops": 30}, "soft_deadline_s": 1500, "hard_timeout_s": 2700,
                  "n_echo": 48, "max_report": 12},
 }
 RULE = ("one evaluation = one seeded history of 4-22 (thorough: 4-30) operations by 2-3 interleaved clients "
